@@ -482,13 +482,13 @@ def gen_args_case(rng):
 
 
 def generate(rng, tier):
-    n = 300 if tier == "quick" else 3000
+    n = 260 if tier == "quick" else 3000
     cases = [gen_case(rng) for _ in range(n)]
     # streams of same-shaped text requests on one long-lived Schema (300 requests quick, 3000 thorough)
     for _ in range(2 if tier == "quick" else 10):
         cases.append(gen_stream_case(rng, 150 if tier == "quick" else 300))
     # argument-dependent resolvers on mixed runtime types (40 quick, 400 thorough)
-    for _ in range(40 if tier == "quick" else 400):
+    for _ in range(30 if tier == "quick" else 400):
         cases.append(gen_args_case(rng))
     return cases
 
